@@ -148,7 +148,7 @@ def same_result(pyres, mres, kind):
 def op_line(op, arg):
     if op in ("tokenize", "postfix", "parse", "pyfloat"):
         return f"{op} ; {hx(arg)}"
-    if op in ("resub_neg", "resub_op"):
+    if op in ("resub_neg", "resub_op", "resub_negbase"):
         return f"resub ; {op[6:]} ; {hx(arg)}"
     if op in ("shunt", "commands"):
         return f"{op} ; {' '.join(hx(t) for t in arg)}"
@@ -183,6 +183,8 @@ def op_python(op, arg):
         return ("ok", SP.negative_pattern.sub(r"-1 * \1", arg))
     if op == "resub_op":
         return ("ok", SP.non_unary_op_pattern.sub(r" \1 ", arg))
+    if op == "resub_negbase":
+        return ("ok", SP.negative_base_pattern.sub(r"-1 * \1", arg))
     if op == "format":
         fmt, stack, consts = arg
         return py(SG.get_formatted_string, fmt, np.array(stack, dtype=int).reshape(-1, 3), consts)
@@ -190,7 +192,7 @@ def op_python(op, arg):
 
 
 KIND = {"tokenize": "toks", "postfix": "toks", "shunt": "toks", "parse": "cmds", "commands": "cmds",
-        "pyfloat": "str", "resub_neg": "str", "resub_op": "str", "format": "str"}
+        "pyfloat": "str", "resub_neg": "str", "resub_op": "str", "resub_negbase": "str", "format": "str"}
 
 
 def parse_model_op(op, line):
@@ -235,7 +237,7 @@ def shrink_seq(items, fails, rebuild, max_steps=400):
 
 def shrink(op, arg):
     try:
-        if op in ("tokenize", "postfix", "parse", "pyfloat", "resub_neg", "resub_op"):
+        if op in ("tokenize", "postfix", "parse", "pyfloat", "resub_neg", "resub_op", "resub_negbase"):
             return shrink_seq(list(arg), lambda s: mismatch_single(op, s), lambda cs: "".join(cs))
         if op in ("shunt", "commands"):
             return shrink_seq(list(arg), lambda t: mismatch_single(op, t), list)
@@ -546,6 +548,8 @@ FIXED_STRINGS = [
     "X_0 ^ X_1 ^ X_2", "X_0/X_1*X_2", "X_0*X_1/X_2", "1 + 2 * 3 ^ 4 / 5 - 6", "\x00", "1\x00", "a b", "1 1", "1  1", " 1 ", "1 + 1 ", "\r\n",
     "1 +\n2", "1\t+\t2", "1 \t+ 2", "-\t1", "-\x1d1", "2 * -X_0", "2 *-X_0", "2*-X_0", "(-X_0)", "-X_0**2", "(-X_0)**2", "-(X_0 + 1)**2",
     "X_1*-2**X_0", "exp(-2**X_0)", "-2**X_0*X_1", "-3**X_0/2", "-10**X_0", "-2**(1/2)", "00", "007", "X_007", "c_00", "+1", "+1.5", "+X_0", "1e+5", "1e-5", "1e+", "1e+-5", "infinit", "-nan", "-NAN", "-NaN + 1",
+    "-2 ^ X_0", "-2  **X_0", "1e-2**X_0", "1.e-2**X_0", ".5e-2**X_0", "1E-2^X_0", "X_0e-2**X_1", "-1e5**X_0", "-1e+**X_0", "-1e-5**X_0", "-1.5.^X_0",
+    "--2**X_0", "-2**-3**X_0", "2**(-3**X_0)", "-.5**X_0", "-5.**X_0", "-5.e3**X_0", "X_0 -2**X_1", "X_0-2**X_1", "(-2**X_0)**-2**X_1", "-2\t^X_0", "-2\n^X_0",
 ]
 
 ALPHABET = list("()()++--**//^^  ..eE__XCxc0123456789") + ["sin", "cos", "sinh", "cosh", "exp", "log", "abs", "sqrt", "Abs", "X_0", "X_1", "C_0", "2.5",
@@ -653,6 +657,12 @@ def parsing_cases(rng, n, tally, printed):
     for _ in range(int(n * 0.15)):
         sc.append(("pyfloat", floatish(rng)))
         sc.append(("pyfloat", floatish(rng).lower()))
+    # the -N^ pass: number-ish pieces around "-" and "^"
+    NB = ["-", "-", "^", "^", " ", "1", "2", "25", ".", ".5", "1.", "e", "E", "e5", "e-5", "e+", "+", "X_0", "(", ")", "\t", "1e-2", "\x1c"]
+    for _ in range(int(n * 0.3)):
+        sc.append(("resub_negbase", "".join(rng.choice(NB) for _ in range(rng.randrange(1, 9)))))
+    for s in [x for x in base[:400]]:
+        sc.append(("resub_negbase", s[:200]))
     tally.batch("scanners", sc)
     # 6. exhaustive small inputs (seed independent; budget scales with n)
     import itertools
@@ -669,6 +679,9 @@ def parsing_cases(rng, n, tally, printed):
     for s in words(["-", " ", "1", "x", "(", "*", "\n", ")"], 6, n):
         ex.append(("resub_neg", s))
         ex.append(("resub_op", s))
+    for s in words(["-", "1", ".", "e", "^", " ", "+", "x"], 6, n):
+        ex.append(("resub_negbase", s))
+        ex.append(("tokenize", s))
     for s in words(["1", "X_0", " ", "+", "-", "*", "(", ")", "sin", "^", "2.5", "/"], 6, n):
         ex.append(("tokenize", s))
         ex.append(("postfix", s))
